@@ -5,7 +5,9 @@ T: filter_clusters (4 linkages x thresholds x left/linear/right/hull) and filter
    tables from the library's own clustering / ranking / hull primitives, judged by Trace_Cluster.
 T (scale): the same calls on production-size curves (300..10^5 points, up to ~900 knees, hundreds of clusters, clusters
    spanning tens of thousands of curve points), per-knee tables only, judged by Trace_ClusterScale (the clauses of
-   ClusterProps in linear time) and cross-checked against Trace_Cluster where the latter can take the case."""
+   ClusterProps in linear time) and cross-checked against Trace_Cluster where the latter can take the case.
+T (scale, many clusters): calls with up to more than 65536 clusters of 1..5 knees (all linkages), independent labels, totals +
+   sampled / steered cluster windows judged by Trace_ClusterScaleWin, cross-checked against Trace_ClusterScale on small calls."""
 import itertools
 import math
 import random
@@ -524,6 +526,366 @@ def run_scale(ctx, sizes, rec, ref):
     ctx.sample({"binding": "T (scale)", "call": {k: v for k, v in meta[sm["id"]].items() if k not in ("skipped", "judged", "wide")}, "case": sm})
 
 
+# ------------------------------------------------------------------------------- scale family, part 2: MANY clusters
+# Calls with 10^2 .. more than 65536 clusters (cluster ids and counts beyond int16 / uint16, per-cluster loops of tens of
+# thousands of rounds).  The knee set is a RECIPE too (groups of 1..5 knees a few points apart, wider steps between groups)
+# and the threshold is tau / (x range of the knees) with tau strictly between the two kinds of step, far from every tie.
+# The labelling is NOT taken from the library here (a linkage that goes wrong beyond 2^15 clusters would corrupt the oracle):
+# _ref_labels transcribes the four threshold rules of C11.  Full per-knee tables would be megabytes per call: the recorder
+# sends the three totals and a few hundred cluster WINDOWS (see Trace_ClusterScaleWin), steered towards the places the result
+# makes suspicious, so that a structural violation anywhere in the call always reaches TLC.
+BIGV = 1 << 30
+BIG_KINDS = {      # sizes: members per group; inner: index steps inside a group; steps: index steps between groups
+    "triples": {"sizes": [1, 2, 3], "inner": [1], "steps": [2], "taus": [1.37, 1.63]},
+    "singles": {"sizes": [1, 1, 1, 2], "inner": [1], "steps": [2], "taus": [1.37, 1.63]},
+    "pairs": {"sizes": [1, 2, 2], "inner": [1], "steps": [2, 3], "taus": [1.37, 1.71]},
+    "loose": {"sizes": [1, 2, 3, 4], "inner": [1, 2], "steps": [3, 4], "taus": [2.37, 2.61]},
+    "wide": {"sizes": [2, 3, 4, 5], "inner": [1, 2, 3], "steps": [6, 9], "taus": [3.37, 4.37, 5.61]},
+}       # taus: with integer steps every linkage distance is a multiple of 1/60 (<= 5 members): 60 * tau is never near an integer
+BIG_SHAPES = ["walk", "walk", "jitter", "texture", "mrc", "stair", "convex", "spikes"]
+BIG_FULL = 1500        # calls with at most this many knees are also judged by Trace_ClusterScale on full tables
+
+
+def _big_knees(ks):
+    """knee recipe -> strictly increasing interior indices (numpy int array); the curve needs ks['n'] points"""
+    kind = BIG_KINDS[ks["kind"]]
+    rng = random.Random(ks["seed"])
+    k = 1 + rng.randrange(0, 4)
+    out = []
+    for _ in range(ks["groups"]):
+        size = rng.choice(kind["sizes"])
+        for m in range(size):
+            out.append(k)
+            if m < size - 1:
+                k += rng.choice(kind["inner"])
+        k += rng.choice(kind["steps"])
+    return np.array(out, dtype=int)
+
+
+def _ref_labels(xs, linkage, t):
+    """The threshold rules of C11, transcribed: a new cluster starts at knee i exactly when its linkage distance to the
+    current cluster / x range >= t.  -> (labels, smallest |distance - t| / t over all decisions: the tie margin)"""
+    length = xs[-1] - xs[0]
+    lab, c, first, margin = [0], 0, 0, float("inf")
+    tot = xs[0]
+    for i in range(1, len(xs)):
+        if linkage == "single_linkage":
+            d = abs(xs[i] - xs[i - 1]) / length
+        elif linkage == "complete_linkage":
+            d = abs(xs[i] - xs[first]) / length
+        elif linkage == "centroid_linkage":
+            d = abs(xs[i] - tot / (i - first)) / length
+        else:
+            d = math.fsum(abs(xs[q] - xs[i]) for q in range(first, i)) / ((i - first) * length)
+        margin = min(margin, abs(d - t))
+        if d >= t:
+            c += 1
+            first = i
+            tot = 0.0
+        tot += xs[i]
+        lab.append(c)
+    return lab, margin / t
+
+
+def _big_recipe(rng, shape, n):
+    r = {"shape": shape, "n": n, "seed": rng.randrange(1 << 30)}
+    if shape == "jitter":
+        a = rng.randrange(n // 10, n // 2)
+        r.update(a=a, b=min(n - 2, a + rng.randrange(n // 8, n // 2)), amp=rng.choice([20.0, 150.0, 400.0]), dir=rng.choice([-1, -1, 1]))
+    if shape in ("stair", "convex") and rng.random() < 0.4:
+        r["int"] = True
+    return r
+
+
+def _record_big(item):
+    import kneeliverse.postprocessing as pp
+    import kneeliverse.clustering as clustering
+    import kneeliverse.knee_ranking as kr
+    import kneeliverse.convex_hull as ch
+    cid, recipe, ks, linkage, mode = item
+    P, _ = _sc_build(recipe)
+    n = len(P)
+    Pcall = P.astype(np.int64) if recipe.get("int") and np.all(P == np.floor(P)) else P
+    kn = _big_knees(ks)
+    assert 1 <= kn[0] and kn[-1] <= n - 2
+    K = len(kn)
+    t = ks["tau"] / float(P[kn[-1], 0] - P[kn[0], 0])
+    link = getattr(clustering, linkage)
+    budget, wall = monitor.quad(n, 8), 600 + n // 50      # hang protection only
+    if mode == "corner":
+        out, val, _ = monitor.call(pp.filter_clusters_corners, (Pcall, kn.copy(), link, t), budget=budget, wall=wall)
+    else:
+        out, val, _ = monitor.call(pp.filter_clusters, (Pcall, kn.copy(), link, t, enums.pick(kr.ClusterRanking, mode)), budget=budget, wall=wall)
+    labl, margin = _ref_labels(P[kn, 0].tolist(), linkage, t)
+    lab = np.array(labl, dtype=np.int64)
+    ncl = int(lab[-1]) + 1
+    first = np.searchsorted(lab, np.arange(ncl + 1))
+    sizes = np.diff(first)
+    meta = {"scale": recipe, "big": ks, "linkage": linkage, "t": t, "mode": mode, "cid": cid, "n": n, "K": K, "ncl": ncl,
+            "multi": int((sizes > 1).sum()), "judged": 0, "skipped": 0, "tie": bool(margin < 1e-9), "full": None}
+    case = {"id": cid, "mode": mode, "outcome": out, "K": K, "R": 0, "ncl": ncl, "wins": [], "pairs": [], "strays": []}
+    if meta["tie"]:
+        return None, meta                              # a decision within rounding noise of a tie pins nothing
+    try:
+        liblab = np.asarray(link(P[kn], t))
+        if liblab.shape != lab.shape or not np.array_equal(liblab.astype(np.int64), lab):
+            bad = int(np.argmax(liblab.astype(np.int64) != lab)) if liblab.shape == lab.shape else -1
+            meta["drift"] = ("many-clusters n=%d: %s labels %d knees differently from the threshold rule of C11 (first difference at "
+                             "knee #%d, %d clusters expected)" % (n, linkage, K, bad, ncl))
+    except Exception as ex:
+        meta["drift"] = "many-clusters n=%d: %s raised %r on the knees" % (n, linkage, ex)
+    if out != "returned":
+        meta["error"] = val
+        return case, meta
+    res = np.array([max(-BIGV + 1, min(BIGV - 1, int(v))) for v in np.asarray(val).ravel().tolist()], dtype=np.int64)
+    R = len(res)
+    case["R"] = R
+    rng = random.Random(ks["seed"] ^ 0x5bd1e995)
+    # ---- steering: where does the result look wrong?  (decides only which windows are sent)
+    pos = np.searchsorted(kn, res)
+    isk = (pos < K) & (kn[np.minimum(pos, K - 1)] == res)
+    counts = np.bincount(lab[pos[isk]], minlength=ncl) if R else np.zeros(ncl, dtype=np.int64)
+    odd = np.nonzero(counts > 1)[0] if mode == "hull" else np.nonzero(counts != 1)[0]
+    want = [int(c) for c in odd[:3]] + [int(c) for c in odd[-1:]]
+    for j in np.nonzero(~isk)[0][:3]:
+        p = int(pos[j])
+        case["strays"].append({"v": int(res[j]), "below": int(kn[p - 1]) if p > 0 else -BIGV, "above": int(kn[p]) if p < K else BIGV})
+        want.append(int(lab[min(p, K - 1)]))
+    down = np.nonzero(np.diff(res) <= 0)[0] if R > 1 else np.zeros(0, dtype=int)
+    pj = [int(j) for j in down[:3]]
+    if R > 1:
+        pj += [0, R - 2] + [rng.randrange(0, R - 1) for _ in range(40)]
+    for j in sorted(set(pj)):
+        case["pairs"].append([int(res[j]), int(res[j + 1])])
+    # ---- the sample of clusters
+    full = K <= BIG_FULL
+    if full:
+        want = list(range(ncl))
+    else:
+        want += [0, 1, ncl - 2, ncl - 1]
+        for th in (127, 255, 4095, 16383, 32767, 65535):
+            want += [th - 1, th, th + 1, th + 2]
+        s0 = rng.randrange(0, ncl)
+        want += list(range(s0, s0 + 20))
+        multi = np.nonzero(sizes > 1)[0]
+        want += [int(multi[rng.randrange(0, len(multi))]) for _ in range(120 if len(multi) else 0)]
+        want += [rng.randrange(0, ncl) for _ in range(60)]
+    want = sorted(set(c for c in want if 0 <= c < ncl))
+    hull = None
+    if mode == "hull":
+        try:
+            hull = np.sort(np.asarray(ch.graham_scan_lower(P), dtype=np.int64))
+        except Exception:
+            hull = None
+    ranked_mode = enums.pick(kr.ClusterRanking, mode) if mode in SC_RANKED else None
+    allscore = {}
+    for c in want:
+        a, b = int(first[c]), int(first[c + 1])
+        cl = kn[a:b]
+        lo = int(kn[a - 1]) if a > 0 else -BIGV
+        hi = int(kn[b]) if b < K else BIGV
+        idx = np.nonzero((res > lo) & (res < hi))[0][:8]
+        w = {"c": c, "lo": lo, "hi": hi, "knees": [int(k) for k in cl], "score": [0] * len(cl), "hullSpan": True,
+             "res": [int(v) for v in res[idx]], "prev": -BIGV, "next": BIGV}
+        if len(idx):
+            if idx[0] > 0:
+                w["prev"] = int(res[idx[0] - 1])
+            if idx[-1] < R - 1:
+                w["next"] = int(res[idx[-1] + 1])
+        if mode == "hull":
+            if hull is not None:
+                q = int(np.searchsorted(hull, cl[0], side="left"))
+                w["hullSpan"] = bool(q < len(hull) and hull[q] <= cl[-1])
+        elif len(cl) > 1:
+            noise = None
+            try:
+                if mode == "corner":
+                    vals = [0.5 * ((P[k][0] - P[k - 1][0]) * (P[k][1] - P[k + 1][1])) for k in cl]
+                    noise = 1e-12 * max(max(abs(v) for v in vals), 1.0)
+                    if any(math.isnan(v) or math.isinf(v) for v in vals):
+                        noise = None
+                else:
+                    vals, noise = _sc_scores(P, [int(k) for k in cl], mode)
+                    if noise is not None and "drift" not in meta:
+                        lib = [float(v) for v in kr.smooth_ranking(P, cl, ranked_mode)]
+                        if not all(numeric.close(x, y, rel=1e-9, ab=noise) for x, y in zip(vals, lib)):
+                            meta["drift"] = ("many-clusters n=%d %s cluster %s: smooth_ranking gives %r, the independent score is %r"
+                                             % (n, mode, w["knees"], lib, vals))
+            except Exception:
+                noise = None
+            if noise is None:
+                meta["skipped"] += 1
+                w["score"] = [-1] * len(cl)
+            else:
+                meta["judged"] += 1
+                w["score"] = numeric.ranks(vals, rel=1e-9, ab=noise)
+        allscore[c] = w
+        case["wins"].append(w)
+    if full:                                           # the same call with full per-knee tables, for Trace_ClusterScale
+        where = {int(k): j + 1 for j, k in enumerate(kn)}
+        fc = {"id": cid, "mode": mode, "outcome": out, "knees": [int(k) for k in kn], "result": [int(v) for v in res],
+              "pos": [where.get(int(v), 0) for v in res], "lab": labl, "score": [], "hullSpan": []}
+        for c in range(ncl):
+            w = allscore[c]
+            fc["score"] += ([-1] * len(w["score"]) if mode == "hull" else w["score"])
+            fc["hullSpan"].append(w["hullSpan"])
+        meta["full"] = fc
+    return case, meta
+
+
+def big_inputs(ctx):
+    """recipes with cluster counts just above 256 .. 65536 x 4 linkages x modes"""
+    rng = ctx.rng
+    plan = []                                                    # (groups, kinds, linkage, modes)
+    links = LINKAGES[:]
+    rng.shuffle(links)
+    for q, linkage in enumerate(links):
+        # more than 2^15 clusters with EVERY linkage (ranked modes / corner variant: every cluster is represented) and more than
+        # 2^16 with two of them (quick; the pair changes with the seed) / all of them in all modes (thorough)
+        if ctx.quick:
+            plan.append((32769 + rng.randrange(0, 3000), ["triples", "triples", "pairs"], linkage, [rng.choice(SC_RANKED)]))
+            if q < 2:
+                plan.append((65537 + rng.randrange(0, 2000), ["singles"], linkage, [rng.choice(SC_RANKED + ["corner"])]))
+        else:
+            plan.append((32769 + rng.randrange(0, 3000), ["triples", "pairs", "loose"], linkage, MODES))
+            plan.append((65537 + rng.randrange(0, 2000), ["singles", "singles", "pairs"], linkage, MODES))
+    mids = [257, 1025, 4097, 10001, 16385]
+    for th in (mids if ctx.quick else mids * 4 + [32769, 32769, 65537]):
+        g = th + rng.randrange(0, max(2, th // 5))
+        kinds = list(BIG_KINDS) if g < 4400 else ["triples", "singles", "pairs", "loose"] if g < 20000 else ["triples", "singles", "pairs"]
+        plan.append((g, kinds, rng.choice(LINKAGES), [rng.choice(MODES)] if g < 30000 else ["hull"]))
+    for _ in range(6 if ctx.quick else 40):                      # small enough for full tables: cross-check of the windows
+        plan.append((rng.randrange(20, 400), list(BIG_KINDS), rng.choice(LINKAGES), [rng.choice(MODES)]))
+    items = []
+    k = 0
+    for groups, kinds, linkage, modes in plan:
+        for mode in modes:
+            ks = {"kind": rng.choice(kinds), "groups": groups, "seed": rng.randrange(1 << 30)}
+            ks["tau"] = rng.choice(BIG_KINDS[ks["kind"]]["taus"])
+            n = int(_big_knees(ks)[-1]) + 2 + rng.randrange(0, 40)
+            items.append(("b%d" % k, _big_recipe(rng, rng.choice(BIG_SHAPES), n), ks, linkage, mode))
+            k += 1
+    items.sort(key=lambda it: -it[2]["groups"])
+    return items
+
+
+BIG_STATIC = {"id": "static", "mode": "linear", "outcome": "returned", "K": 6, "R": 3, "ncl": 3, "strays": [],
+              "pairs": [[4, 9], [9, 12]],
+              "wins": [{"c": 0, "lo": -BIGV, "hi": 9, "knees": [3, 4, 5], "score": [0, 2, 1], "hullSpan": True, "res": [4], "prev": -BIGV, "next": 9},
+                       {"c": 1, "lo": 5, "hi": 12, "knees": [9], "score": [0], "hullSpan": True, "res": [9], "prev": 4, "next": 12},
+                       {"c": 2, "lo": 9, "hi": BIGV, "knees": [12, 13], "score": [1, 0], "hullSpan": True, "res": [12], "prev": 9, "next": BIGV}]}
+
+
+def _big_selftests():
+    import copy
+
+    def mut(f, **top):
+        c = copy.deepcopy(BIG_STATIC)
+        c.update(top)
+        f(c["wins"])
+        return c
+    out = [(BIG_STATIC, "ok")]
+    out.append((mut(lambda w: w[0].update(res=[3])), "best-in-cluster"))
+    out.append((mut(lambda w: w[0].update(res=[5]), mode="corner"), "corner-best"))
+    out.append((mut(lambda w: w[0].update(res=[4, 5]), R=4), "one-per-cluster"))
+    out.append((mut(lambda w: w[0].update(res=[4, 5])), "one-per-cluster"))
+    out.append((mut(lambda w: w[1].update(res=[]), R=2), "one-per-cluster"))
+    out.append((mut(lambda w: w[1].update(res=[])), "one-per-cluster"))
+    out.append((mut(lambda w: [x.update(res=[]) for x in w], R=0, pairs=[]), "one-per-cluster"))      # nothing returned
+    out.append((mut(lambda w: None, pairs=[[9, 4]]), "increasing-subset"))
+    out.append((mut(lambda w: None, pairs=[[9, 9]]), "increasing-subset"))
+    out.append((mut(lambda w: w[1].update(res=[10])), "increasing-subset"))
+    out.append((mut(lambda w: None, strays=[{"v": 10, "below": 9, "above": 12}]), "increasing-subset"))
+    out.append((mut(lambda w: w[1].update(prev=9)), "increasing-subset"))
+    out.append((mut(lambda w: w[0].update(res=[5, 4])), "increasing-subset"))
+    out.append((mut(lambda w: w[1].update(hullSpan=False), mode="hull"), "hull-unrepresented-cluster"))
+    out.append((mut(lambda w: w[0].update(res=[3, 4]), mode="hull"), "hull-at-most-one"))
+    out.append((mut(lambda w: None, mode="hull", R=4), "hull-at-most-one"))
+    out.append((mut(lambda w: [w[0].update(res=[]), w[1].update(res=[]), w[2].update(prev=-BIGV)], mode="hull", R=1, pairs=[]), "ok"))
+    out.append((mut(lambda w: None, outcome="raised:OverflowError"), "completes"))
+    out.append((mut(lambda w: w[0].update(score=[0, -1, 1])), "malformed"))
+    out.append((mut(lambda w: w[0].update(lo=3)), "malformed"))
+    out.append((mut(lambda w: w[2].update(c=3)), "malformed"))
+    out.append((mut(lambda w: w[0].update(score=[-1, -1, -1], res=[3])), "ok"))
+    return out
+
+
+def _big_judge(ctx, rec, selftest=None):
+    """Trace_ClusterScaleWin on the windows of every call; Trace_ClusterScale on full tables of the small ones: both must
+    reject the same calls."""
+    import concurrent.futures as cf
+    cases = [c for c, _ in rec if c is not None]
+    fulls = [m["full"] for c, m in rec if c is not None and m.get("full")]
+    with cf.ThreadPoolExecutor(max_workers=2) as ex:               # the two validators side by side
+        fref = ex.submit(ctx.trace, "Trace_ClusterScale", fulls, chunk=400)
+        rej = ctx.trace("Trace_ClusterScaleWin", cases, selftest=selftest, chunk=12)
+        ref = fref.result()
+    for cid, vs in rej.items():
+        if vs[0][0] == "malformed":
+            raise RuntimeError("many-clusters recorder produced malformed windows for %s: %s" % (cid, vs[0]))
+    if fulls:
+        ctx.traces -= len(fulls)                     # the same recorded calls, judged twice
+        for f in fulls:
+            a = rej.get(f["id"], [["ok"]])[0][0]
+            b = ref.get(f["id"], [["ok"]])[0][0]
+            if a != b:
+                raise RuntimeError("Trace_ClusterScaleWin (%s) and Trace_ClusterScale (%s) disagree on %s" % (a, b, f["id"]))
+        ctx.extra["scale_windows_cross_checked_with_full_tables"] = ctx.extra.get("scale_windows_cross_checked_with_full_tables", 0) + len(fulls)
+    return rej
+
+
+def _big_case(m):
+    return {"scale": m["scale"], "big": m["big"], "linkage": m["linkage"], "mode": m["mode"], "cid": m["cid"]}
+
+
+def run_big(ctx, rec):
+    rej = _big_judge(ctx, rec, selftest=_big_selftests())
+    st = {"calls": 0, "calls_dropped_for_a_tie": 0, "points": [10 ** 9, 0], "max_knees": 0, "max_clusters": 0, "cluster_counts": [],
+          "calls_with_over_4096_clusters": 0, "calls_with_over_32768_clusters": 0, "calls_with_over_65536_clusters": 0,
+          "by_mode": {}, "by_linkage": {}, "by_kind": {}, "by_shape": {}, "over_32768_clusters_by_linkage_and_mode": {},
+          "windows": 0, "multi_member_clusters_ranked_in_windows": 0, "clusters_left_unranked_nan_or_ill_conditioned": 0}
+    sm = None
+    for c, m in rec:
+        if "drift" in m:
+            ctx.note("DRIFT: " + m["drift"][:300])
+        if c is None:
+            st["calls_dropped_for_a_tie"] += 1
+            continue
+        st["calls"] += 1
+        st["points"] = [min(st["points"][0], m["n"]), max(st["points"][1], m["n"])]
+        st["max_knees"] = max(st["max_knees"], m["K"])
+        st["max_clusters"] = max(st["max_clusters"], m["ncl"])
+        st["cluster_counts"].append(m["ncl"])
+        for th in (4096, 32768, 65536):
+            st["calls_with_over_%d_clusters" % th] += m["ncl"] > th
+        if m["ncl"] > 32768:
+            key = "%s/%s" % (m["linkage"], m["mode"])
+            st["over_32768_clusters_by_linkage_and_mode"][key] = st["over_32768_clusters_by_linkage_and_mode"].get(key, 0) + 1
+        for key, v in (("by_mode", m["mode"]), ("by_linkage", m["linkage"]), ("by_kind", m["big"]["kind"]), ("by_shape", m["scale"]["shape"])):
+            st[key][v] = st[key].get(v, 0) + 1
+        st["windows"] += len(c["wins"])
+        st["multi_member_clusters_ranked_in_windows"] += m["judged"]
+        st["clusters_left_unranked_nan_or_ill_conditioned"] += m["skipped"]
+        ctx.count((m["scale"], m["big"], m["linkage"], m["mode"]), m["multi"] > 0)
+        if sm is None and m["ncl"] > 32768 and c["outcome"] == "returned":
+            sm = (c, m)
+    st["cluster_counts"].sort()
+    ctx.extra["scale_many_clusters"] = st
+    meta = {m["cid"]: m for _, m in rec}
+    for cid, vs in rej.items():
+        m = meta[cid]
+        ctx.violation(vs[0][0], _big_case(m), {"verdict": vs[0], "error": m.get("error"), "n": m["n"], "knees": m["K"], "clusters": m["ncl"],
+                                               "linkage": m["linkage"], "t": m["t"]}, match="%s:%s" % (vs[0][0], m["mode"]))
+    if sm:
+        c, m = sm
+        ctx.sample({"binding": "T (scale, many clusters)", "call": {k: v for k, v in m.items() if k not in ("full", "judged", "skipped", "tie")},
+                    "case": dict(c, wins=c["wins"][:3])})
+
+
+def _record_scaleish(item):
+    return _record_big(item) if len(item) == 5 else _record_scale(item)
+
+
 def run(ctx):
     ctx.rule = ("curves n=8..80 (random families, adversarial, bundled-trace windows) x interior knee subsets (all sizes 2..5 "
                 "sampled for n<=10, random subsets and adjacent runs above) x 4 linkages x t in {0.05,0.1,0.2,0.5,1,1.5} x "
@@ -532,7 +894,12 @@ def run(ctx):
                 "lines, textured piecewise-linear trends, miss-ratio-like, staircases, convex corners, valley, spikes, random walks; "
                 "unit / ragged x, float / int64) x knee layouts (structural points, 3..9 knees thousands of points apart, adjacent "
                 "runs, up to 900 random knees) x 4 linkages x t in {0.002..1.5} x the 5 modes, every clause, scores recomputed in "
-                "extended precision on the complete segments, judged by Trace_ClusterScale")
+                "extended precision on the complete segments, judged by Trace_ClusterScale.  scale, many clusters: curves of 10^2..2*10^5 "
+                "points whose knees form 20 .. more than 65536 clusters of 1..5 knees (counts just above 256/1024/4096/10^4/16384 and, with "
+                "EVERY linkage, above 32768 and above 65536; five group layouts, tau/(x range) thresholds far from ties, the 5 modes), "
+                "labels from an independent transcription of the four threshold rules, judged by Trace_ClusterScaleWin on the totals "
+                "(returned = clusters) and on a few hundred cluster windows per call (fixed, random, around ids 2^7..2^16, and wherever "
+                "the result holds a stray / descending index or a cluster span without exactly one kept knee)")
     ctx.assumptions += numeric.ASSUMPTIONS + [
         "cluster labels come from the same linkage function on points[knees] (C11 vouches for it); the ranking score is "
         "recomputed independently (squared Pearson correlation of the left/right segment within the cluster x relative "
@@ -542,7 +909,11 @@ def run(ctx):
         "scale family: the score is recomputed in extended precision (two-pass centred sums over every point of the segment); "
         "two scores of a cluster closer than max(1e-9, 16*m*eps*(conditioning of the centrings)) x the largest weight share a "
         "rank, clusters where that bound exceeds 1e-6 (nearly constant segments) or with NaN scores are judged structurally "
-        "only; hull mode at scale uses the library's own lower hull for the span table (C18 vouches for it at scale)"]
+        "only; hull mode at scale uses the library's own lower hull for the span table (C18 vouches for it at scale)",
+        "scale family, many clusters: one-per-cluster / increasing-subset / hull-at-most-one are judged on the totals and on every "
+        "cluster the recorder's linear scan finds suspicious (complete for these clauses); best-in-cluster / corner-best / "
+        "hull-unrepresented-cluster on a SAMPLE of a few hundred clusters per call; a call whose clustering has a decision within "
+        "1e-9 (relative) of its threshold is dropped"]
     ctx.mc("ClusterFilter", "MC_ClusterFilter" if ctx.quick else "MC_ClusterFilter_5",
            need_actions=("Singleton", "KeepBest", "HullSkip", "HullChoice", "Return"), timeout=1800)
     ctx.mc("ClusterFilter", "MC_ClusterFilter_worst", expect="ClusterOk")
@@ -551,7 +922,9 @@ def run(ctx):
     cases = [c for c, _ in rec]
     meta = {c["id"]: m for c, m in rec}
     sitems, ssizes = scale_inputs(ctx)
-    srec = par.pmap(_record_scale, sitems, chunksize=1)
+    bitems = big_inputs(ctx)
+    arec = par.pmap(_record_scaleish, bitems + sitems, chunksize=1)     # the long calls first
+    brec, srec = arec[:len(bitems)], arec[len(bitems):]
     xs = [c for c, _ in srec if len(c["knees"]) <= XSMALL]           # cross-check of Trace_ClusterScale, same TLC runs
     rej = ctx.trace("Trace_Cluster", cases + xs, selftest=_selftests(), chunk=600)
     ctx.traces -= len(xs)
@@ -570,10 +943,16 @@ def run(ctx):
     sm = next(c for c in cases if len(set(c["lab"])) < len(c["lab"]) and len(c["knees"]) <= 6)
     ctx.sample({"binding": "T", "call": {k: v for k, v in meta[sm["id"]].items() if k != "points"}, "case": sm})
     run_scale(ctx, ssizes, srec, ref)
+    run_big(ctx, brec)
 
 
 def replay(ctx, obj):
     c = obj["case"]
+    if "big" in c:
+        case, m = _record_big((c.get("cid", "replay"), c["scale"], c["big"], c["linkage"], c["mode"]))
+        for cid, vs in _big_judge(ctx, [(case, m)]).items():
+            ctx.violation(vs[0][0], c, {"verdict": vs[0], "error": m.get("error"), "n": m["n"], "knees": m["K"], "clusters": m["ncl"]})
+        return
     if "scale" in c:
         case, m = _record_scale((c.get("cid", "replay"), c["scale"], c["knees"], c["linkage"], c["t"], c["mode"]))
         for cid, vs in _scale_judge(ctx, [case]).items():
